@@ -48,6 +48,9 @@ type pwGen struct {
 	lastOp map[string]int // ref -> op id of the latest recorded entry (generator's belief)
 	pushes []int          // op ids that recorded a reference entry for a user ref
 	refs   []string
+
+	globalGen   func() []world.GlobalRuleSpec // C11: draws the policy's global rules
+	forcePushes bool
 }
 
 func devList(n int) []int {
@@ -112,7 +115,9 @@ func (g *pwGen) initialPolicy() *world.PolicySpec {
 			pol.Files["main-delegates"] = d2
 		}
 	}
-	if g.cfg.globalRules {
+	if g.globalGen != nil {
+		pol.GlobalRules = g.globalGen()
+	} else if g.cfg.globalRules {
 		switch r.Intn(3) {
 		case 0: // unrelated namespace
 			pol.GlobalRules = append(pol.GlobalRules, world.GlobalRuleSpec{Name: "two-for-docs", Kind: "threshold", Patterns: []string{"git:refs/heads/docs"}, Threshold: 2})
@@ -132,7 +137,18 @@ func (g *pwGen) editPolicy() *world.PolicySpec {
 	t.Version++
 	rule := &t.Rules[0]
 	devs := devList(g.cfg.nDev)
-	switch r.Intn(4) {
+	k := r.Intn(4)
+	if g.globalGen != nil && r.Chance(0.5) {
+		k = 4
+	}
+	switch k {
+	case 4: // declare, change or remove global rules
+		if r.Chance(0.3) {
+			p.GlobalRules = nil
+		} else {
+			p.GlobalRules = g.globalGen()
+		}
+		p.RootVersion++
 	case 0: // remove a principal (de-authorise), keeping the threshold meetable
 		if len(rule.Principals) > rule.Threshold {
 			i := r.Intn(len(rule.Principals))
@@ -224,7 +240,12 @@ func (g *pwGen) authorisedPush(ref string, i int) {
 		if v.Threshold > 1 {
 			return // cannot be met without approvals
 		}
-		id := g.b.add(world.Op{Kind: "push", Actor: g.actorForKey(pusher), Ref: ref, Files: fileFor(r, i), CommitKey: pusher, EntryKey: -2})
+		op := world.Op{Kind: "push", Actor: g.actorForKey(pusher), Ref: ref, Files: fileFor(r, i), CommitKey: pusher, EntryKey: -2}
+		if g.forcePushes && r.Chance(0.25) {
+			op.Base = "root" // history rewrite: the new target does not descend from the previous one
+			op.Files = map[string]string{"rewritten.txt": fmt.Sprintf("rewrite-%d", i)}
+		}
+		id := g.b.add(op)
 		g.pushes = append(g.pushes, id)
 		g.lastOp[ref] = id
 		return
